@@ -779,6 +779,12 @@ def do_call(ps, proc, call):
             v = proc.rlimit(ps.RLIMIT_NOFILE)
         elif m == "as_dict":
             return {"kind": "ok", "shape": asdict_shape(proc.as_dict(attrs=call["attrs"], ad_value=AD))}
+        elif m == "as_dict_all":
+            # the DEFAULT form: attrs=None means every name of _as_dict_attrnames (call["attrs"] = that set's iteration
+            # order, for the model only); `variant` "empty" passes attrs=[] (`ls = attrs or valid_names`: the same)
+            if call.get("variant") == "empty":
+                return {"kind": "ok", "shape": asdict_shape(proc.as_dict(attrs=[], ad_value=AD))}
+            return {"kind": "ok", "shape": asdict_shape(proc.as_dict(ad_value=AD))}
         elif m == "process_iter":
             ps._pmap = {}
             ls = list(ps.process_iter(attrs=call["attrs"], ad_value=AD))
@@ -829,6 +835,9 @@ def calls_for(ps, tier, all_attrs=True):
         calls.append({"method": "as_dict", "attrs": attr_order(a)})
     if all_attrs:
         calls.append({"method": "as_dict", "attrs": list(ps._as_dict_attrnames)})
+        # as_dict() / as_dict(attrs=None) and as_dict(attrs=[]): the default form (NotImplementedError clause skips)
+        calls.append({"method": "as_dict_all", "attrs": list(ps._as_dict_attrnames)})
+        calls.append({"method": "as_dict_all", "attrs": list(ps._as_dict_attrnames), "variant": "empty"})
     calls.append({"method": "process_iter", "attrs": attr_order(["pid", "name", "status", "ppid"])})
     return calls
 
@@ -900,8 +909,45 @@ def in_parents_region(inp, out, spec):
     return out.get("exc") in ("NoSuchProcess", "AccessDenied") and out.get("pid") in others and bool(inp["plan"].get("deny"))
 
 
-def line_for(call, plan, impl):
-    return {"op": "run", "method": call["method"], "attrs": call.get("attrs", []), "plan": plan, "impl": impl}
+def is_property_plan(plan):
+    """one of the property's four plan shapes (Spec.PropertyPlan): vanishAt k, zombieFrom k, denyAt k, denyAt i then
+    vanishAt j>i — the quantifier of the clause "the class matches the cause" (Spec.Cause)"""
+    sw, dn = plan.get("switch", []), plan.get("deny", [])
+    if len(dn) > 1 or len(sw) > 1 or (not sw and not dn):
+        return False
+    if dn and sw:
+        return sw[0][1] == "gone" and dn[0][0] < sw[0][0]
+    return True
+
+
+FINDING_PROBE = "C03-denied-probe-reads-as-reuse"
+PROBE_METHODS = ("ppid", "children", "children_recursive", "parent", "parents", "as_dict", "as_dict_all")
+
+
+def in_probe_region(inp, out, trace):
+    """region of the known finding: a query that goes through _raise_if_pid_reused() raises NoSuchProcess(own pid)
+    although the process was not gone at any access the call made — the plan refuses ONE access to /proc/<pid>/stat
+    (the identity probe `Process(self.pid)` inside is_running(): _init swallows AccessDenied, _ident = (pid, None),
+    __eq__ says different, `_pid_reused`)"""
+    call, plan = inp["call"], inp["plan"]
+    if call["method"] not in PROBE_METHODS or not plan.get("deny"):
+        return False
+    if call["method"].startswith("as_dict") and "ppid" not in call.get("attrs", []):
+        return False
+    T = inp["world"]["target"]
+    if not (out.get("kind") == "exc" and out.get("exc") == "NoSuchProcess" and out.get("pid") == T):
+        return False
+    if any(st == "gone" and k < len(trace) for k, st in plan.get("switch", [])):
+        return False
+    i = plan["deny"][0][0]
+    return i < len(trace) and trace[i] in ("open %d/stat" % T, "read %d/stat" % T)
+
+
+def line_for(call, plan, impl, ntrace=None):
+    d = {"op": "run", "method": call["method"], "attrs": call.get("attrs", []), "plan": plan, "impl": impl}
+    if ntrace is not None and is_property_plan(plan) and call["method"] != "process_iter":
+        d["cause_k1"] = ntrace
+    return d
 
 
 class Batch:
@@ -928,7 +974,7 @@ class Batch:
                 lines.append(dict(spec, op="world"))
                 cur = spec
             idx.append(len(lines))
-            lines.append(line_for(call, plan, out))
+            lines.append(line_for(call, plan, out, len(trace)))
         outs = self.ctx.driver().batch(lines)
         self.lines += len(lines)
         for (spec, call, plan, out, trace, unknown, later), i in zip(self.items, idx):
@@ -963,6 +1009,18 @@ def judge(res, inp, out, trace, unknown, later, m, known=()):
         res.disagree("spec", inp, out, m["model"], {"gone": "NoSuchProcess(pid)"},
                      note="process gone before the call but %s did not raise NoSuchProcess" % call["method"])
         return
+    if spec.get("cause") is not None:
+        res.count("cause_checked")
+    if spec.get("cause") is False and spec["ok"]:
+        fid = FINDING_PROBE if (FINDING_PROBE in known and in_probe_region(inp, out, trace)) else None
+        res.disagree("spec", inp, out, m["model"],
+                     {"cause": "NoSuchProcess only if gone at one of the call's accesses, ZombieProcess only if a zombie at one, "
+                               "AccessDenied only if one was refused"},
+                     note="%s under %s raised %s over %d accesses, at none of which that was the state of the process"
+                          % (call["method"], json.dumps(plan), json.dumps(out), len(trace)), finding=fid)
+        if fid is None:
+            return
+        res.known_seen[fid] = res.known_seen.get(fid, 0) + 1
     lowest = inp["world"]["target"] == min(p["pid"] for p in inp["world"]["procs"])
     if later is not None and call["method"] not in GONE_NSP_EXEMPT and not (call["method"] in ("parent", "parents") and lowest):
         if not (later["kind"] == "exc" and later["exc"] == "NoSuchProcess" and later["pid"] == inp["world"]["target"]) \
@@ -1344,7 +1402,9 @@ def _run_input(ctx, inp):
     try:
         call = dict(inp["call"])
         out, trace, unk, later = bw.run(call, inp["plan"], again=bool(inp.get("later")))
-        m = ctx.driver().batch([dict(bw.spec, op="world"), line_for(call, inp["plan"], later if inp.get("later") else out)])[1]
+        m = ctx.driver().batch([dict(bw.spec, op="world"),
+                                line_for(call, inp["plan"], later if inp.get("later") else out,
+                                         None if inp.get("later") else len(trace))])[1]
         return (later if inp.get("later") else out), trace, m, bw.spec
     finally:
         bw.close()
@@ -1355,7 +1415,7 @@ def _violates(inp, out, m):
         return False
     if inp.get("later"):
         return not (out["kind"] == "exc" and out["exc"] == "NoSuchProcess")
-    return (not m["spec"]["ok"]) or m["spec"].get("gone_nsp") is False
+    return (not m["spec"]["ok"]) or m["spec"].get("gone_nsp") is False or m["spec"].get("cause") is False
 
 
 def replay(ctx, rp, res):
@@ -1367,6 +1427,10 @@ def replay(ctx, rp, res):
         return _hist_violates(inp, outs, m)
     out, trace, m, _ = _run_input(ctx, inp)
     return _violates(inp, out, m)
+
+
+def KNOWN_IDS(ctx):
+    return set(f.get("id") for f in (ctx.findings or []))
 
 
 def shrink(ctx, d):
@@ -1405,11 +1469,12 @@ def shrink(ctx, d):
             base_out, base_trace, _, _ = bw.run(call, {})
             plans = single_plans(base_trace)
             runs = [(p,) + bw.run(call, p)[:2] for p in plans]
-            lines = [dict(bw.spec, op="world")] + [line_for(call, p, o) for p, o, _ in runs]
+            lines = [dict(bw.spec, op="world")] + [line_for(call, p, o, len(t)) for p, o, t in runs]
             outs = ctx.driver().batch(lines)[1:]
             for (p, o, t), m in zip(runs, outs):
                 i2 = {"world": bw.spec, "call": call, "plan": p}
-                if _violates(i2, o, m) and not in_parents_region(i2, o, m.get("spec", {})):
+                if _violates(i2, o, m) and not in_parents_region(i2, o, m.get("spec", {})) \
+                        and not (FINDING_PROBE in KNOWN_IDS(ctx) and in_probe_region(i2, o, t)):
                     return dict(d, input=i2, impl=o, model=m.get("model"), spec=m.get("spec"),
                                 note="shrunk: %s under %s gives %s; access trace %s" % (call["method"], json.dumps(p), json.dumps(o), t))
         finally:
